@@ -18,6 +18,14 @@
       track: a resource nested in another one is drained in the same callback, unconditionally
       ("several resources: more kinds").
     * [PlaybackStateManager::{pause, resume, stop}]: [C03/Model.v].
+    * [DecodeScheduler::run] (streaming/sound/decode_scheduler.rs), one step of the decoder thread
+      once the ring has room: [set_loop_region.read()] -> [transport.set_loop_region], then
+      [seek_by.read()] -> [seek_to_index(round((shared.position() + amount) * sample_rate))], then
+      [seek_to.read()] -> [seek_to_index(round(position * sample_rate))], then the frame at
+      [transport.position] is pushed and [transport.increment_position] is called.
+      [seek_to_index] = [Transport::seek_to] ([C04/Transport.v]: the target is wrapped into the
+      loop region IN FORCE) + [decoder.seek].  [shared.position()] is written by the audio thread
+      only; it is an input of the step.
 
     [slot_write] / [slot_read] are whole calls of [CommandWriter::write] / [CommandReader::read]
     composed from the protocol steps of [Model.v] (the coarse schedules; the fine-grained ones
@@ -30,7 +38,7 @@
 
     This file contains definitions only. *)
 From Coq Require Import ZArith QArith List Bool Arith.
-From KV Require Import Base.Outcome Base.Num C19.Model C06.Model C03.Model C07.Model.
+From KV Require Import Base.Outcome Base.Num C19.Model C06.Model C03.Model C04.Transport C07.Model.
 Import ListNotations.
 Close Scope Q_scope.
 
@@ -197,11 +205,17 @@ Definition psm_of_code (c : Z) : psm Q Z :=
 (** a sound.  Kinds in the order of [StaticSound::read_commands]:
     0 volume, 1 playback_rate, 2 panning, 3 set_loop_region, 4 pause, 5 resume, 6 stop,
     7 seek_by, 8 seek_to.  Values: [(x, y)]; pause / stop: tween of [x] ns; resume: tween of
-    [x] ns, start time [y] ns from now ([0]: immediately); seeks: [x] whole seconds; the
-    parameter kinds and the loop region: [x] identifies the value.
+    [x] ns, start time [y] ns from now ([0]: immediately); seeks: [x] whole seconds; the loop
+    region: [x .. y] in whole seconds ([y <= x]: none); the parameter kinds: [x] identifies the value.
     Positions are in whole seconds: [sn_pos] the transport position, [sn_heard] the position
     of the frame being heard (what the handle reports one callback later). *)
-Record sndst := Snd { sn_psm : psm Q Z; sn_vol : Z; sn_rate : Z; sn_pan : Z; sn_loop : Z; sn_pos : Z; sn_heard : Z }.
+Record sndst := Snd { sn_psm : psm Q Z; sn_vol : Z; sn_rate : Z; sn_pan : Z; sn_loop : option (Z * Z); sn_pos : Z; sn_heard : Z }.
+(** [Transport::seek_to] in whole seconds (the sound is 60 s long); [-1]: panic / hang *)
+Definition snd_seek (s : sndst) (target : Z) : Z :=
+  match transport_seek_to 200 {| t_pos := sn_pos s; t_loop := sn_loop s; t_playing := true |} target 60 with
+  | Ok t => t_pos t
+  | _ => -1
+  end.
 Definition snd_with_psm (s : sndst) (m : psm Q Z) : sndst :=
   Snd m (sn_vol s) (sn_rate s) (sn_pan s) (sn_loop s) (sn_pos s) (sn_heard s).
 Definition snd_apply (k : nat) (v : val) (s : sndst) : sndst :=
@@ -209,22 +223,31 @@ Definition snd_apply (k : nat) (v : val) (s : sndst) : sndst :=
   | 0%nat => Snd (sn_psm s) (fst v) (sn_rate s) (sn_pan s) (sn_loop s) (sn_pos s) (sn_heard s)
   | 1%nat => Snd (sn_psm s) (sn_vol s) (fst v) (sn_pan s) (sn_loop s) (sn_pos s) (sn_heard s)
   | 2%nat => Snd (sn_psm s) (sn_vol s) (sn_rate s) (fst v) (sn_loop s) (sn_pos s) (sn_heard s)
-  | 3%nat => Snd (sn_psm s) (sn_vol s) (sn_rate s) (sn_pan s) (fst v) (sn_pos s) (sn_heard s)
+  | 3%nat => Snd (sn_psm s) (sn_vol s) (sn_rate s) (sn_pan s) (filter_region (Some v)) (sn_pos s) (sn_heard s)
   | 4%nat | 5%nat | 6%nat =>
       snd_with_psm s (pb_apply Z (-60) 0 (fun v => tween_z (fst v)) (fun v => stime_z (snd v)) (k - 4)%nat v (sn_psm s))
-  | 7%nat => Snd (sn_psm s) (sn_vol s) (sn_rate s) (sn_pan s) (sn_loop s) (sn_pos s + fst v) (sn_heard s)
-  | 8%nat => Snd (sn_psm s) (sn_vol s) (sn_rate s) (sn_pan s) (sn_loop s) (fst v) (sn_heard s)
+  | 7%nat => Snd (sn_psm s) (sn_vol s) (sn_rate s) (sn_pan s) (sn_loop s) (snd_seek s (sn_pos s + fst v)) (sn_heard s)
+  | 8%nat => Snd (sn_psm s) (sn_vol s) (sn_rate s) (sn_pan s) (sn_loop s) (snd_seek s (fst v)) (sn_heard s)
   | _ => s
   end.
-Definition snd_init (code : Z) : sndst := Snd (psm_of_code code) 0 0 0 0 0 0.
+Definition snd_init_loop (code : Z) (lr : option (Z * Z)) : sndst := Snd (psm_of_code code) 0 0 0 (filter_region lr) 0 0.
+Definition snd_init (code : Z) : sndst := snd_init_loop code None.
 Definition static_order : list nat := [0; 1; 2; 3; 4; 5; 6; 7; 8]%nat.
 (** the kinds [StreamingSound::read_commands] reads on the audio thread *)
 Definition streaming_order : list nat := [0; 1; 2; 4; 5; 6]%nat.
 (** [Sound::process] as far as the handle-visible position is concerned: while the sound is
-    advancing the frame heard follows the transport (fades never end within a scenario) *)
+    advancing the frame heard follows the transport (fades never end within a scenario; less
+    than half a second is played within a scenario) *)
 Definition snd_process (s : sndst) : sndst :=
   if is_advancing (ps (sn_psm s))
-  then Snd (sn_psm s) (sn_vol s) (sn_rate s) (sn_pan s) (sn_loop s) (sn_pos s) (sn_pos s) else s.
+  then
+    (* [increment_position]: a position at or beyond the loop end wraps as soon as the sound advances *)
+    let p := match sn_loop s with
+             | Some (ls, le) => match wrap_down 200 (sn_pos s) ls le with Ok p => p | _ => -1 end
+             | None => sn_pos s
+             end in
+    Snd (sn_psm s) (sn_vol s) (sn_rate s) (sn_pan s) (sn_loop s) p p
+  else s.
 
 (** a mixer sub-track.  Kinds in the order of [Track::read_commands]: 0 set_volume, 1 pause, 2 resume *)
 Record trk := Trk { tk_psm : psm Q Z; tk_vol : Z }.
@@ -245,3 +268,32 @@ Definition ts_nested : list nat := [3; 4; 5; 6; 7; 8; 9; 10; 11]%nat.
 Definition ts_order : list nat := ts_own ++ ts_nested.
 (** the guard of counter-model 2: the track is advancing *)
 Definition ts_guard (s : trk * sndst) : bool := is_advancing (ps (tk_psm (fst s))).
+
+(** * the decoder-side kinds of a streaming sound ([DecodeScheduler::run])
+    kinds 0 set_loop_region, 1 seek_by, 2 seek_to: their order in [run].  The state is the
+    decoder's [Transport] (or the panic / hang a command caused). *)
+Section Decoder.
+  Variable fuel : nat.
+  Variable nf : Z.                                  (* num_frames *)
+  Variable region_of : val -> option (Z * Z).       (* the region (in frames) a set_loop_region command carries *)
+  Variable by_idx : val -> Z.                       (* round((shared.position() + amount) * sample_rate) *)
+  Variable to_idx : val -> Z.                       (* round(position * sample_rate) *)
+  Definition dec_apply (k : nat) (v : val) (s : outcome transport) : outcome transport :=
+    let! t := s in
+    match k with
+    | 0%nat => Ok (transport_set_loop_region t (region_of v))
+    | 1%nat => transport_seek_to fuel t (by_idx v) nf
+    | 2%nat => transport_seek_to fuel t (to_idx v) nf
+    | _ => Ok t
+    end.
+  (** the rest of the step: the frame at [transport.position] is pushed, then [increment_position] *)
+  Definition dec_push (s : outcome transport) : outcome transport :=
+    let! t := s in increment_position fuel t nf.
+End Decoder.
+Definition dec_order : list nat := [0; 1; 2]%nat.
+(** the seeded reading: the seeks are read before the loop region *)
+Definition dec_order_seeks_first : list nat := [1; 2; 0]%nat.
+(** executable instance: a region value [(ls, le)] with [le <= ls] stands for [None]; the seek
+    values carry the frame index *)
+Definition decz_apply (nf : Z) : nat -> val -> outcome transport -> outcome transport :=
+  dec_apply 400 nf (fun v => filter_region (Some v)) fst fst.
